@@ -81,7 +81,25 @@ def counts(path, col=1):
                 c[p[col]] = c.get(p[col], 0) + 1
     return c
 m = root + '/mutation/'
-p1, p2, p2b4, p3, p1b, p2b = counts(m + 'phase1.txt'), counts(m + 'phase2.txt'), counts(m + 'phase2_before_strengthening.txt'), counts(m + 'phase3_same.txt'), counts(m + 'phase1b.txt'), counts(m + 'phase2b.txt')
+def counts_files(paths, keep=None):
+    c = {}
+    for path in paths:
+        if not os.path.exists(path):
+            continue
+        for l in open(path):
+            p = l.split()
+            if len(p) > 2 and (keep is None or p[2].split(':')[0] in keep):
+                c[p[1]] = c.get(p[1], 0) + 1
+    return c
+p1, p2, p2b4, p3 = counts(m + 'phase1.txt'), counts(m + 'phase2.txt'), counts(m + 'phase2_before_strengthening.txt'), counts(m + 'phase3_same.txt')
+early = {'bucket.go', 'collection+query.go', 'designdoc.go'}   # phase 1b ids of the other files went stale when the F25 fix shifted them; those files were redone as phase 1c
+late = {'views.go', 'payload.go', 'queryable.go'}
+p1b = counts_files([m + 'phase1b.txt'], early)
+for k, v in counts_files([m + 'phase1c.txt'], late).items():
+    p1b[k] = p1b.get(k, 0) + v
+p2b = counts_files([m + 'phase2b.txt'], early)
+for k, v in counts_files([m + 'phase2c.txt'], late).items():
+    p2b[k] = p2b.get(k, 0) + v
 lines = []
 if p1:
     n1 = sum(p1.values())
@@ -91,7 +109,7 @@ if p2:
 if p3:
     lines.append('* **Phase 3** (`mutation/phase3_same.txt`): the %d mutants the harness cannot tell from the original, against the contracts: %d flagged, %d not (as it should be for equivalent mutants).' % (sum(p3.values()), p3.get('CAUGHT', 0), p3.get('MISSED', 0)))
 if p1b:
-    lines.append('* **Phase 1b / 2b** (`mutation/phase1b.txt`, `phase2b.txt`; bucket.go, views.go, designdoc.go, collection+query.go, payload.go, queryable.go - files the harness says little about, so every mutant that passes the suite goes to the contracts): %d mutants, %d killed by the suite, %d do not build, %d pass the suite; of those that pass, %d were flagged by the contracts and %d were not (%d not run for lack of time). The unflagged ones are mostly in code without a contract by decision (URL parsing, `OpenBucketIn`, logging, retry back-off) or in the map/reduce pipeline (11.7).' % (sum(p1b.values()), p1b.get('killed-by-suite', 0), p1b.get('nobuild', 0), p1b.get('passes-suite', 0), p2b.get('CAUGHT', 0), p2b.get('MISSED', 0), p1b.get('passes-suite', 0) - sum(p2b.values())))
+    lines.append('* **Phase 1b / 2b** (`mutation/phase1b.txt`, `phase1c.txt`, `phase2b.txt`, `phase2c.txt`; bucket.go, views.go, designdoc.go, collection+query.go, payload.go, queryable.go - files the harness says little about, so every mutant that passes the suite goes to the contracts): %d mutants, %d killed by the suite, %d do not build, %d pass the suite; of those that pass, %d were flagged by the contracts and %d were not (%d not run: the retry loop of `inTransaction`, whose mutants re-verify every writer and take ten minutes each, and whatever phase 2c had not reached). The unflagged ones are mostly in code without a contract by decision (URL parsing, `OpenBucketIn`, logging, retry back-off) or in the map/reduce pipeline (11.7).' % (sum(p1b.values()), p1b.get('killed-by-suite', 0), p1b.get('nobuild', 0), p1b.get('passes-suite', 0), p2b.get('CAUGHT', 0), p2b.get('MISSED', 0), p1b.get('passes-suite', 0) - sum(p2b.values())))
 block('MUTATION', '\n'.join(lines))
 
 nr = json.load(open(root + '/notreached.json'))
